@@ -321,13 +321,21 @@ pub fn run_case(bins: &Binaries, case: &Case, reference: &[(String, Vec<u8>)], i
         }
         _ => {}
     }
+    // (a prover whose input could not be written may be killed at once - before it even says hello: that run is a
+    // failure anyway; one such prover is excused per write fault that fired)
+    let mut kill_excuses = write_faults;
     for st in standins.iter().filter(|s| s.died) {
+        if kill_excuses > 0 {
+            kill_excuses -= 1;
+            continue;
+        }
         v.push(mk("I6-prover-killed", format!("prover #{} disappeared before the coordinator let it finish: anthem killed it (or closed its pipes) while it was still running within its time limit", st.ordinal)));
     }
     let mut used = vec![0usize; total];
     let mut all_proven = !case.plan.spawn_all_enoent || total == 0;
     if exited.is_some() {
-        if !case.plan.spawn_all_enoent && standins.len() as u64 + spawn_faults != total as u64 {
+        let connected = standins.len() as u64 + spawn_faults;
+        if !case.plan.spawn_all_enoent && !(connected == total as u64 || (connected < total as u64 && connected + kill_excuses >= total as u64)) {
             v.push(mk("I3-attempts", format!("{} prover processes connected for {} emitted problems ({} spawn failure(s) injected)", standins.len(), total, spawn_faults)));
         }
         if spawn_faults > 0 || write_faults > 0 {
